@@ -406,6 +406,9 @@ func (e *Enc) applyCall(name, kind string, fn *ssa.Function, fc *FuncContract, c
 	} else {
 		mod = e.callMod(c)
 	}
+	// an object of this function that is handed to the callee must satisfy its type's invariant now (the
+	// callee assumes it); from here on it is an ordinary object whose invariant callees preserve
+	e.completeHandedOver(c, pos)
 	e.unbalancedCallee = fc != nil && fc.Flags["unbalanced"]
 	e.havocForCall(mod, instrOf(c, e.curBlock), args)
 	defer func() { e.unbalancedCallee = false }()
@@ -652,7 +655,7 @@ func (e *Enc) unescapedAllocs(at ssa.Instruction) []allocRec {
 				// any other use is an escape; did it possibly happen before `at`?
 				rb := r.Block()
 				if rb == atBlock {
-					if instrIndex(rb, r) < instrIndex(rb, at) || e.reachBlocks[rb][rb] {
+					if instrIndex(rb, r) <= instrIndex(rb, at) || e.reachBlocks[rb][rb] { // the call at `at` itself hands the object to the callee
 						escaped = true
 					}
 				} else if e.reachBlocks[rb][atBlock] {
@@ -1747,6 +1750,40 @@ func (e *Enc) typeInvAfterStore(a *Addr, pos token.Pos) {
 			continue
 		}
 		e.oblige("typeinv", ti.Type+"/"+itoa(i), pos, Or(Ge(Birth(a.Base), e.now0), t.T), cl.Props, "invariant of "+ti.Type+": "+cl.Src)
+	}
+}
+
+// completeHandedOver: see applyCall.
+func (e *Enc) completeHandedOver(c *ssa.CallCommon, pos token.Pos) {
+	if e.prefix != "" {
+		return
+	}
+	var ops []ssa.Value
+	if c.IsInvoke() {
+		ops = append(ops, c.Value)
+	}
+	ops = append(ops, c.Args...)
+	for _, op := range ops {
+		for i := range e.allocs {
+			a := &e.allocs[i]
+			if a.complete || a.val != op {
+				continue
+			}
+			ti := e.structInv(a.typ)
+			if ti == nil {
+				continue
+			}
+			env := &Env{e: e, vars: map[string]TV{"self": {T: a.ref, Typ: types.NewPointer(a.typ)}}, state: e.cur, old: e.entry, now0: e.now0}
+			for k, cl := range ti.Clauses {
+				t, err := env.Eval(cl.Expr)
+				if err != nil {
+					continue
+				}
+				e.oblige("typeinv-new", ti.Type+"/handed-over/"+itoa(k), pos, t.T, cl.Props, "invariant of new "+ti.Type+" when it is handed to a callee: "+cl.Src)
+			}
+			a.complete = true
+			e.invObjs = append(e.invObjs, invObj{t: a.ref, typ: a.typ})
+		}
 	}
 }
 
